@@ -58,8 +58,39 @@ structure World where
   now : Int                                   -- `GetTime()` / `time.Now().Unix()`
   fresh : String                              -- the next `uuid.New().String()`
   ord : {α : Type} → List (String × α) → List (String × α)     -- the order in which a map is ranged over
+  /-- the order in which a pointer-keyed map is ranged over -/
+  ordP : {κ α : Type} → List (κ × α) → List (κ × α) := fun l => l
+  /-- `select { case ch <- v: … default: … }`: is there room in `ch`'s buffer (or a receiver waiting) at this instant?
+      Decided by the environment (the receiving goroutine drains concurrently); theorems quantify over it. -/
+  ready : Nat → Bool := fun _ => true
 
 def World.OrdOk (w : World) : Prop := ∀ (α : Type) (m : List (String × α)), (w.ord m).Perm m
+def World.OrdPOk (w : World) : Prop := ∀ (κ α : Type) (m : List (κ × α)), (w.ordP m).Perm m
+
+/-- `map[*T]V` (keys are pointers: compared by identity, which the translated struct carries as its `addr__` field) -/
+abbrev PMap (κ α : Type) := List (κ × α)
+
+namespace PMap
+variable {κ α : Type} [DecidableEq κ]
+
+def lookup : PMap κ α → κ → Option α
+  | [], _ => none
+  | (a, v) :: m, k => if a = k then some v else lookup m k
+def erase : PMap κ α → κ → PMap κ α
+  | [], _ => []
+  | (a, v) :: m, k => if a = k then erase m k else (a, v) :: erase m k
+def get [Inhabited α] (m : PMap κ α) (k : κ) : α := (lookup m k).getD default
+def has (m : PMap κ α) (k : κ) : Bool := (lookup m k).isSome
+def set (m : PMap κ α) (k : κ) (v : α) : PMap κ α := (k, v) :: erase m k
+def delete (m : PMap κ α) (k : κ) : PMap κ α := erase m k
+def len (m : PMap κ α) : Int := (m.length : Int)
+def empty : PMap κ α := []
+
+end PMap
+
+/-- `for k, v := range m` over a pointer-keyed map -/
+def forRangeP {κ α σ : Type} (entries : List (κ × α)) (init : σ) (body : σ → κ → α → σ) : σ :=
+  entries.foldl (fun acc kv => body acc kv.1 kv.2) init
 
 namespace Map
 variable {α : Type}
@@ -70,6 +101,8 @@ def set (m : Map α) (k : String) (v : α) : Map α := KV.insert m k v
 def delete (m : Map α) (k : String) : Map α := KV.erase m k
 def len (m : Map α) : Int := (m.length : Int)
 def empty : Map α := []
+/-- write-back of `delete(m[k], x)`: deleting from the nil map of an absent `k` is a no-op in Go and creates no entry -/
+def setIfPresent (m : Map α) (k : String) (v : α) : Map α := if KV.has m k then KV.insert m k v else m
 
 end Map
 
